@@ -17,7 +17,7 @@ ASSUMPTIONS = [
 ]
 
 SCORERS = [None, {"cls": "L2Cost"}, {"cls": "LocalAnomalyScore", "cost": {"cls": "L2Cost"}}, {"cls": "GaussianVarCost"},
-           {"cls": "L1Cost"}, "function", "table"]
+           {"cls": "L1Cost"}, "function", "table", {"cls": "GaussianCovCost"}]
 
 
 def oracle_spec(spec):
@@ -71,13 +71,16 @@ def cases(draw, tier):
                        "min_segment_length": msl, "max_interval_length": mil,
                        "growth_factor": growth},
             "X": None, "scale2": draw(st.floats(1.0, 3.0)),
-            "n_train": None if long_series else draw(st.sampled_from([None, None, "shorter", "longer", "same_buffer"]))}
+            "n_train": None if long_series else draw(st.sampled_from([None, None, "shorter", "longer", "same_buffer"])),
+            "history": None if long_series else draw(st.sampled_from(K.HISTORIES))}
     if bulk == "table":
         m = (n + 1) ** 4
         flat = draw(st.lists(st.integers(-2, 4), min_size=m, max_size=m))
         sc["table"] = np.asarray(flat).reshape((n + 1,) * 4).tolist()
     elif bulk == "matrix":
-        X, _ = draw(D.structured_matrix(n, p, boundary_positions=(1, msl, n - msl, n - 2), max_shifts=1))
+        cov = isinstance(sc, dict) and "GaussianCovCost" in str(sc)
+        X, _ = draw(D.structured_matrix(n, p, boundary_positions=(1, msl, n - msl, n - 2), max_shifts=1,
+                                        **({"exact": False, "min_noise_scale": 0.5} if cov else {})))
         if unit != 1.0:
             X = [[v * unit for v in row] for row in X]
     case["X"] = X
@@ -117,10 +120,25 @@ def check(case):
     if case.get("n_train") == "same_buffer":
         Xtrain = Xtrain.copy()
         Xpred = Xtrain
-    with sut("CircularBinarySegmentation.fit/predict"):
-        det = K.build(K.detector_spec("CircularBinarySegmentation", params)).fit(Xtrain)
+    history = case.get("history") if case.get("n_train") != "same_buffer" else None
+    try:
+        return _check(case, params, X, n, p, msl, mil, Xtrain, Xpred, history)
+    except RuntimeError as e:
+        if "positive definite" in str(e) and "GaussianCovCost" in str(params["anomaly_score"]):
+            return {"nontrivial": False, "classes": ["not_pd_error_accepted"]}
+        raise Violation(f"unexpected RuntimeError: {e}")
+
+
+def _check(case, params, X, n, p, msl, mil, Xtrain, Xpred, history):
+    with sut("CircularBinarySegmentation.fit/predict", allowed=(RuntimeError,)):
+        det = K.build(K.detector_spec("CircularBinarySegmentation", params))
+        if history == "scorer_prefit_wide" and not K.prefit_scorer_wide(det, Xtrain):
+            history = None
+        det.fit(Xtrain)
         if Xpred is Xtrain:
             Xtrain[:] = X
+        if history in ("used_buffer_array", "used_buffer_frame"):
+            Xpred = K.used_buffer(det, X, history.endswith("frame"))
         y = det.predict(Xpred)
         table = det.scores
         thr = float(det.threshold_)
@@ -203,6 +221,8 @@ def check(case):
             classes.append("threshold_removed_some")
     if len(Xtrain) != n:
         classes.append("fitted_on_other_length")
+    if history:
+        classes.append(f"history={history}")
     if n >= 150:
         classes.append("long_series")
     if msl == 1:
